@@ -833,6 +833,25 @@ func (fx *FuncExec) evalSpecCall(env *SpecEnv, x *ast.CallExpr) Val {
 		t := fx.specType(env, x.Args[1])
 		s := fx.em.SortOf(t)
 		return Val{T: t, Sort: s, S: fx.em.Unbox("(i.val "+v.S+")", s)}
+	case "called":
+		// called("callee"): a call to that callee (at-call naming) has been executed on this path
+		lit, ok := x.Args[0].(*ast.BasicLit)
+		if !ok {
+			fx.specFail(env, "called(\"callee name\")")
+		}
+		nm, _ := strconv.Unquote(lit.Value)
+		if h, ok := env.state().called[nm]; ok {
+			return bv(h)
+		}
+		return bv("false")
+	case "bytesof":
+		// bytesof(s, x): the string s consists of exactly the bytes of the byte slice x
+		a, b := fx.evalSpec(env, x.Args[0]), fx.evalSpec(env, x.Args[1])
+		if a.Sort != SStr || b.Sort != SSlice {
+			fx.specFail(env, "bytesof(string, []byte)")
+		}
+		el := fx.indexVal(env, b, Val{Sort: SInt, S: "i"})
+		return bv(fmt.Sprintf("(and (= (gs.len %s) (s.len %s)) (forall ((i Int)) (=> (and (<= 0 i) (< i (gs.len %s))) (= (gs.at %s i) %s))))", a.S, b.S, a.S, a.S, el.S))
 	case "streq":
 		a, b := fx.evalSpec(env, x.Args[0]), fx.evalSpec(env, x.Args[1])
 		return bv(fmt.Sprintf("(and (= (gs.len %s) (gs.len %s)) (forall ((i Int)) (=> (and (<= 0 i) (< i (gs.len %s))) (= (gs.at %s i) (gs.at %s i)))))", a.S, b.S, a.S, a.S, b.S))
